@@ -58,7 +58,12 @@ class Report:
         self.extra = {}
         self.known = _load_known()
         symx.STATS.reset()
-        self._stats_abs = None
+        if not sub:
+            d = os.path.join(ROOT, 'replays', pid)
+            if os.path.isdir(d):
+                for f in os.listdir(d):
+                    if f.endswith('.json'):
+                        os.unlink(os.path.join(d, f))
 
     # ---- description of what is encoded
     def encode(self, *objs):
@@ -161,7 +166,7 @@ class Report:
             k = self._known(name, inputs)
             msg = out.strip().splitlines()[-1] if out.strip() else ''
             if k is not None:
-                line = 'KNOWN-FINDING: property=%s %s [%s]' % (self.pid, k['what'], name)
+                line = 'KNOWN-FINDING: property=%s %s' % (self.pid, k['what'])
                 if line not in self.lines:
                     self.lines.append(line)
                 self._rec(name, 'known-finding', seconds, replay=path, finding=k.get('id'), observed=msg[:300])
